@@ -14,7 +14,15 @@ spec evaluates the OneDriver clause (SVSem!Drivers) on every emitted design.
            random vectors; stdlib RTL components (arbiters, muxes, crossbars, register files, queues,
            ChecksumRTL, thorough: ProcRTL / ChecksumXcelRTL); generated designs (harness/svgen.py):
            operators x operand shapes x widths {1,2,7,8,31,32,33,64}, control flow, structs, packed and
-           unpacked arrays, hierarchies with interfaces and arrays of sub-components, sequential logic
+           unpacked arrays, hierarchies with interfaces and arrays of sub-components, sequential logic;
+           family nd: every array-like construct (port / wire / register arrays, packed arrays of Bits and
+           of structs in struct ports, wires and temporaries, arrays of interfaces, interfaces nested in
+           interfaces, port arrays in interfaces, arrays of sub-components with scalar ports, port arrays
+           and interface arrays, constant arrays) x {1, 2 (non-square), 3} dimensions x {constant, loop
+           variable, signal} indices in update blocks and constant indices in connect statements, every
+           element with its own function; family lv: 26 uses of a loop variable (index, operand, comparison,
+           shift amount, shifted value, size casts, extensions, slice bounds) x 8 range forms (ascending,
+           offset, stepped, descending, nested)
   trust    before anything else the interpreter must reproduce the maintainers' expectations: the TV / TV_IN /
            TV_OUT vector sets of the repo cases are turned into traces directly (no PyMTL simulation involved)
            and validated; a vector set that fails although the PyMTL trace of the same design is accepted
@@ -51,7 +59,7 @@ PID = "C03"
 
 # (family, number of designs) per tier
 # "nd" = every array-like construct x {1, 2, 3} dimensions x {constant, loop-variable, signal} indices in update
-# blocks and connect statements: index = construct + 15 * (dimensions - 1) (+ 45 per further round of the grid,
+# blocks and connect statements: index = construct + 16 * (dimensions - 1) (+ 48 per further round of the grid,
 # which draws other sizes / widths); "lv" = every use of a loop variable x 8 range forms.
 # An entry is (family, number of designs) or (family, list of design indices).
 def nd_idx(dims, constructs=None, rounds=1):
@@ -61,19 +69,18 @@ def nd_idx(dims, constructs=None, rounds=1):
             for c in (constructs or cs)]
 
 
-# the sub-component constructs are the heaviest (4 arrays of instances each): 3-D only in the thorough tier
-_ND_LIGHT = ["port", "wire", "pfield", "pfwire", "pftmp", "sfield", "ifc", "ifcnest", "ifcport", "ffwire", "constarr"]
+# the sub-component constructs are the heaviest (4 arrays of instances each): the quick tier has two of the four in 3-D
+_ND_LIGHT = ["port", "sport", "wire", "pfield", "pfwire", "pftmp", "sfield", "ifc", "ifcnest", "ifcport", "ffwire", "constarr"]
 GEN = {
     "quick": [("unit", 160), ("ops", 40), ("expr", 24), ("ctrl", 24), ("loopidx", 10), ("struct", 10), ("hier", 10),
               ("seq", 12), ("misc", 12),
-              ("nd", nd_idx([1], _ND_LIGHT) + nd_idx([2]) + nd_idx([3], ["port", "wire", "pfield", "pftmp", "ifc", "ifcnest",
-                                                                         "ffwire", "constarr"])),
+              ("nd", nd_idx([1, 2]) + nd_idx([3], _ND_LIGHT + ["comphet", "compifc"])),
               ("lv", 8)],
     # (two rounds of the grid, the second one without the 3-D sub-component arrays; the expression families
     # were trimmed by about a fifth to make room: unit 480 -> 400, ops 560 -> 400, expr 400 -> 320, ctrl 300 -> 240)
     "thorough": [("unit", 400), ("ops", 400), ("expr", 320), ("ctrl", 240), ("loopidx", 100), ("struct", 100),
                  ("hier", 100), ("seq", 120), ("misc", 120),
-                 ("nd", nd_idx([1, 2, 3]) + [45 + i for i in nd_idx([1, 2]) + nd_idx([3], _ND_LIGHT)]), ("lv", 32)],
+                 ("nd", nd_idx([1, 2, 3]) + [48 + i for i in nd_idx([1, 2]) + nd_idx([3], _ND_LIGHT)]), ("lv", 32)],
 }
 QUICK_STDLIB = ["RoundRobinArbiter_4", "RoundRobinArbiterEn_3", "Mux_8_4", "Mux_33_2", "Demux_8_4", "Adder_33", "Subtractor_32",
                 "Incrementer_8", "ZeroComparator_32", "LTComparator_33", "LEComparator_8", "EqComparator_1",
@@ -94,7 +101,7 @@ QUICK_STDLIB = ["RoundRobinArbiter_4", "RoundRobinArbiterEn_3", "Mux_8_4", "Mux_
 GEN_C12 = {
     "quick": [("unit", 40), ("ops", 8), ("expr", 10), ("ctrl", 12), ("loopidx", 10), ("struct", 16), ("hier", 10),
               ("seq", 8), ("misc", 12),
-              ("nd", nd_idx([2], ["port", "wire", "pfield", "pfwire", "pftmp", "ifc", "ifcnest", "ifcport", "comp", "compifc",
+              ("nd", nd_idx([2], ["port", "sport", "wire", "pfield", "pfwire", "pftmp", "ifc", "ifcnest", "ifcport", "comp", "compifc",
                                   "compport", "ffwire", "constarr"])
                + nd_idx([3], ["port", "ifc", "ifcport"]) + nd_idx([1], ["ifcnest", "ifcport", "compport", "ffwire"])),
               ("lv", 8)],
@@ -102,7 +109,7 @@ GEN_C12 = {
     # expr 240 -> 200, ctrl 200 -> 170, struct 180 -> 160, hier 120 -> 110 make room for it)
     "thorough": [("unit", 240), ("ops", 220), ("expr", 200), ("ctrl", 170), ("loopidx", 100), ("struct", 160),
                  ("hier", 110), ("seq", 100), ("misc", 120),
-                 ("nd", nd_idx([1, 2, 3]) + [45 + i for i in nd_idx([2], _ND_LIGHT)]), ("lv", 16)],
+                 ("nd", nd_idx([1, 2, 3]) + [48 + i for i in nd_idx([2], _ND_LIGHT)]), ("lv", 16)],
 }
 
 
